@@ -142,7 +142,9 @@ impl<'a> ExpressionEvaluator<'a> {
                 ))])
             }
             BoundExpression::Exists { query, negated } => {
-                todo!("Subquery evaluation is not yet implemented")
+                Err(EvaluationError::InvalidExpression(
+                    "subqueries are not supported in this context".to_string(),
+                ))
             }
             BoundExpression::InList {
                 expr,
@@ -168,14 +170,18 @@ impl<'a> ExpressionEvaluator<'a> {
                 ))])
             }
             BoundExpression::Subquery { query, result_type } => {
-                todo!("Subquery evaluation is not yet implemented")
+                Err(EvaluationError::InvalidExpression(
+                    "subqueries are not supported in this context".to_string(),
+                ))
             }
             BoundExpression::InSubquery {
                 expr,
                 query,
                 negated,
             } => {
-                todo!("Subquery evaluation is not yet implemented")
+                Err(EvaluationError::InvalidExpression(
+                    "subqueries are not supported in this context".to_string(),
+                ))
             }
             BoundExpression::Function {
                 func,
